@@ -539,7 +539,17 @@ Error:
         }
         struct video_s* video = self->video + i;
         camera_stop(video->source.camera);
+        // Workers that did start may have no source thread to end them.
+        // End them the way a source does when it exits: the filter first,
+        // then the sink.
+        video->source.is_stopping = 1;
+        thread_join(&video->source.thread);
+        sig_source_stop_filter(&video->source);
+        sig_source_stop_sink(&video->source);
     }
+    // Wait for them, so that the storage devices they started are stopped
+    // and a later stop/abort/shutdown finds nothing to wait for.
+    acquire_stop(self_);
     self->state = DeviceState_AwaitingConfiguration;
     return AcquireStatus_Error;
 }
